@@ -119,11 +119,16 @@ def parseContent (t : Tables) (j : Json) : R (Content String × Bool) := do
     return (.error e, fmtOk && (← usable.getBool?))
   | _ => throw s!"bad content {j.compress}"
 
+/-- a time stamp of the implementation that is not a number on the grid (NaN, a string, …) arrives as `null`:
+the observation is then unusable (flag `false`) -/
+def parseTs (j : Json) : R (Int × Bool) := if j.isNull then pure (0, false) else do return (← j.getInt?, true)
+
 def parseCall (t : Tables) (j : Json) : R (Call String × Bool) := do
   match ← arr j with
   | [cb, kind, key, m, p, content, ts] =>
     let (c, ok) ← parseContent t content
-    return (⟨← parseReg kind key cb, ← getStr m, ← getStr p, ⟨c, ← ts.getInt?⟩⟩, ok)
+    let (tsv, tok) ← parseTs ts
+    return (⟨← parseReg kind key cb, ← getStr m, ← getStr p, ⟨c, tsv⟩⟩, ok && tok)
   | _ => throw "bad call"
 
 def parseCache (t : Tables) (j : Json) : R (Cache String × Bool) := do
@@ -131,7 +136,8 @@ def parseCache (t : Tables) (j : Json) : R (Cache String × Bool) := do
     match ← arr e with
     | [m, p, content, ts] =>
       let (c, ok) ← parseContent t content
-      return (((← getStr m, ← getStr p), (⟨c, ← ts.getInt?⟩ : Item String)), ok)
+      let (tsv, tok) ← parseTs ts
+      return (((← getStr m, ← getStr p), (⟨c, tsv⟩ : Item String)), ok && tok)
     | _ => throw "bad cache entry"
   return (es.map (·.1), es.all (·.2))
 
@@ -179,9 +185,9 @@ def handle (j : Json) : R Json := do
       | some a, none => some a
       | none, b => b
     return Json.mkObj [("bad", jopt jnat first), ("clause", match bad, broken with
-      | some a, some b => if b ≤ a then "unusable-error" else "mirror"
+      | some a, some b => if b ≤ a then "unusable-observation" else "mirror"
       | some _, none => "mirror"
-      | none, some _ => "unusable-error"
+      | none, some _ => "unusable-observation"
       | none, none => Json.null)]
   | "judge_wake" =>
     let (before, ok1) ← parseCache tables (← fld j "before")
